@@ -84,9 +84,10 @@ def peel_desc(draw):
 
 @st.composite
 def unary_desc(draw):
+    two_way = draw(st.integers(0, 3)) > 0
     if draw(st.booleans()):
-        return ["Reduce", {"xf": draw(st.sampled_from(XF))}]
-    return ["StatXf", {"xf": draw(st.sampled_from(XF_NONID))}]
+        return ["Reduce", {"xf": draw(st.sampled_from(XF)), "two_way": two_way}]
+    return ["StatXf", {"xf": draw(st.sampled_from(XF_NONID)), "two_way": two_way}]
 
 
 @st.composite
